@@ -935,6 +935,7 @@ class C11Check(LifeCheckBase):
         classes = sc["classes"]
         cur_dim = None
         events = 0
+        window = deque(maxlen=spec["params"].get("window_size")) if spec["kind"] == "sliding" else None
         for t, op in enumerate(sc["ops"]):
             if op["op"] not in ("fit", "partial_fit"):
                 continue
@@ -951,6 +952,23 @@ class C11Check(LifeCheckBase):
                 continue
             cur_dim = d
             events += 1
+            if window is not None:
+                # what the sliding window holds now (reference: a deque of the samples it was given)
+                if op["op"] == "fit":
+                    window.clear()
+                for lab_i in to_arr_y(ds["y"]):
+                    if not (spec["params"].get("only_labeled") and np.isnan(lab_i)):
+                        window.append(lab_i)
+                inner_p = spec["inner"].get("params", {})
+                if len(window) and all(np.isnan(v) for v in window) and not op.get("fail") and not (inner_p.get("class_prior") or 0):
+                    ctx.probe("window_without_labels")
+                    try:
+                        Pw = np.asarray(est.predict_proba(np.array(sc["queries"][str(d)], dtype=float)), dtype=float)
+                        if Pw.shape[1] == len(classes) and not np.allclose(Pw, 1.0 / len(classes), atol=1e-9):
+                            ctx.violate("zero-labels-not-uniform", subj, f"op {t}: the window holds {len(window)} samples, none of them labeled, but predict_proba is {Pw[0]} instead of uniform", cond)
+                            break
+                    except Exception:
+                        pass
             fired_now = bool(op.get("fail")) and _FAULT["fired"] > 0
             if op.get("fail"):
                 ctx.fault("peer_fit_failed")
